@@ -120,7 +120,7 @@ func c12Run(r *Run, start, preamble string) {
 				o := w.Apply(a)
 				root.Path = append(root.Path, a)
 				if !o.OK {
-					r.HarnessError("preamble step failed: %s: %s %s", a.Desc, o.Err, o.PanicVal)
+					panic(preambleFailed{fmt.Sprintf("%s: %s %s", a.Desc, o.Err, o.PanicVal)})
 				}
 				return o
 			}
@@ -133,8 +133,7 @@ func c12Run(r *Run, start, preamble string) {
 				origDep = ms[0]
 			}
 			if origSend == nil || origDep == nil {
-				r.HarnessError("preamble produced no MessageSent")
-				return
+				panic(preambleFailed{"preamble produced no MessageSent"})
 			}
 			attSend, attDep = Attest(origSend, signers), Attest(origDep, signers)
 			if preamble == "pauser-rotated" {
